@@ -23,7 +23,7 @@ from .clock import SimClock, TimeShim
 from .device import Device, expand
 from .lib import load
 from .tape import h64
-from .threads import HarnessError, Sched, SimLock
+from .threads import SimRLock, HarnessError, Sched, SimLock
 from .transport import JumpWaiter, Link, SimAbort, SimHang, make_sim_transport, make_sim_transport_async
 
 KEYDIR = os.path.join(os.path.dirname(os.path.dirname(os.path.abspath(__file__))), 'fixtures', 'keys')
@@ -180,6 +180,7 @@ class OpRunner(object):
 
         def cb(x):
             rec['auth_cb_calls'] += 1
+            rec['auth_cb_available'] = bool(self.dev.available)      # what the application sees if it looks while connect() is under way
             rec['auth_cb_written'] = link.bytes_written
             rec['auth_cb_pkts'] = len(self.run.device.host_pkts)
             if kind == 'raise':
@@ -299,6 +300,22 @@ class OpRunner(object):
             return d.available
         if k == 'locks':
             return _lock_states(d)
+        if k == 'ghost':
+            # another AdbDevice object of the same process -- own transport, own device -- does some work now and is then left behind
+            # with its streams open and packets parked. Nothing of that may be visible to this object.
+            from .tape import Tape, h64
+            sub = execute(op['scn'], Tape(h64('ghost', op.get('seed', 0))))
+            self.run.ghosts = getattr(self.run, 'ghosts', []) + [sub]
+            rec['ghost_parked'] = bool(sub.store_shadow is not None and sub.store_shadow.model.pending())
+            return None
+        if k == 'ghost_resume':
+            # the other object goes on with the generator it had left suspended
+            subs = getattr(self.run, 'ghosts', [])
+            if not subs:
+                return None
+            r = subs[0].runner.do({'op': 'ss_consume', 'rt': 5.0})
+            rec['ghost_rec'] = r
+            return r['value'] if r['ok'] else ('raised', r['exc'])
         if k == 'usb_heal':
             b = self.run.usb
             b.plan.clear()
@@ -735,9 +752,24 @@ def _mk_transport_sync(scn, run, waiter):
 def execute(scn, tape):
     """Run a scenario; never raises for library behaviour (HarnessError for harness trouble)."""
     L = load()
-    if scn.get('api', 'sync') == 'async':
-        return _execute_async(scn, tape, L)
-    return _execute_sync(scn, tape, L)
+    lg = old_level = None
+    if scn.get('config', {}).get('log_debug'):
+        # the application runs with DEBUG logging switched on for the library (no handler attached: records are dropped unformatted)
+        import logging
+        lg = logging.getLogger('adb_shell')
+        old_level = lg.level
+        lg.setLevel(logging.DEBUG)
+    try:
+        if scn.get('api', 'sync') == 'async':
+            run = _execute_async(scn, tape, L)
+        else:
+            run = _execute_sync(scn, tape, L)
+    finally:
+        if lg is not None:
+            lg.setLevel(old_level)
+    if lg is not None:
+        run.probes['debug_logging_on'] = 1
+    return run
 
 
 def _finish(run):
@@ -771,6 +803,7 @@ def _execute_sync(scn, tape, L):
     adb_device = L['adb_device']
     saved = _patch_time(['adb_device'], run.clock)
     saved_lock = adb_device.Lock
+    saved_rlock = None
     sched = None
     try:
         if multi:
@@ -788,7 +821,15 @@ def _execute_sync(scn, tape, L):
             def mk_lock():
                 counter[0] += 1
                 return SimLock(sched, 'L%d' % counter[0])
+
+            def mk_rlock():
+                counter[0] += 1
+                return SimRLock(sched, 'R%d' % counter[0])
             adb_device.Lock = mk_lock
+            if hasattr(adb_device, 'RLock'):
+                # not on the pinned tree; a lock of any kind that the library creates must be a cooperative one, or the baton is lost
+                saved_rlock = adb_device.RLock
+                adb_device.RLock = mk_rlock
         else:
             waiter = JumpWaiter(run.clock)
             counter = [0]
@@ -796,7 +837,14 @@ def _execute_sync(scn, tape, L):
             def mk_lock():
                 counter[0] += 1
                 return SimLock(None, 'L%d' % counter[0])
+
+            def mk_rlock():
+                counter[0] += 1
+                return SimRLock(None, 'R%d' % counter[0])
             adb_device.Lock = mk_lock
+            if hasattr(adb_device, 'RLock'):
+                saved_rlock = adb_device.RLock
+                adb_device.RLock = mk_rlock
         transport, extra = _mk_transport_sync(scn, run, waiter)
         run.transport = transport
         o = scn.get('object', {})
@@ -820,6 +868,7 @@ def _execute_sync(scn, tape, L):
             from .storemodel import attach_shadow
             run.store_shadow = attach_shadow(obj._io_manager, run, L)
         runner = OpRunner(run, scn, obj, False)
+        run.runner = runner
         run.results = [[] for _ in actors]
         run.pre = []
         if multi and cfg.get('track_states', True):
@@ -874,6 +923,8 @@ def _execute_sync(scn, tape, L):
         run.locks = _lock_states(obj)
     finally:
         adb_device.Lock = saved_lock
+        if saved_rlock is not None:
+            adb_device.RLock = saved_rlock
         _unpatch(saved)
         L['hidden_helpers'].os = os
         if scn.get('transport') == 'tcp':
